@@ -178,10 +178,14 @@ def enabled(obj, model):
             for val, want in menu:
                 add(('subset_pattern', by, val), lambda o, by=by, val=val, want=want:
                     [(n := o.subset_pattern(by, val), same(), _expect(n, rids, want))[0:3]])
-            rep = [u[-1], u[0], u[-1]] if len(u) > 1 else [u[0], u[0]]
-            want = [c for v in rep for c, d in zip(cids, desc) if selfdesc._eq(d, v)]
-            add(('subsample_pattern', by, rep), lambda o, by=by, rep=rep, want=want:
-                [(n := o.subsample_pattern(by, rep), same(), _expect(n, rids, want, multiset_c=True))[0:3]])
+            reps = [[u[-1], u[0], u[-1]] if len(u) > 1 else [u[0], u[0]]]
+            if nc <= 4:
+                # a condition drawn three times: every pair of its copies (also non-adjacent ones) is NaN
+                reps.append([u[0], u[0], u[0]] + ([u[-1]] if len(u) > 1 else []))
+            for rep in reps:
+                want = [c for v in rep for c, d in zip(cids, desc) if selfdesc._eq(d, v)]
+                add(('subsample_pattern', by, rep), lambda o, by=by, rep=rep, want=want:
+                    [(n := o.subsample_pattern(by, rep), same(), _expect(n, rids, want, multiset_c=True))[0:3]])
     # --- reorder / sort_by (in place) -----------------------------------------------------------
     if nc >= 2:
         perms = {'reverse': list(range(nc))[::-1], 'swap01': [1, 0] + list(range(2, nc)),
